@@ -5,4 +5,13 @@ sys.path.insert(0, os.path.dirname(os.path.abspath(__file__)))
 from sim.driver import main  # noqa: E402
 
 if __name__ == "__main__":
-    sys.exit(main())
+    try:
+        code = main()
+    except SystemExit:
+        raise
+    except BaseException:
+        import traceback
+
+        traceback.print_exc()
+        code = 2  # a crash of the harness is never a pass and never a violation
+    sys.exit(code)
